@@ -44,6 +44,13 @@ def amplifier_families():
         for levels, chain in ((2, 40), (3, 100), (3, 200), (30, 60), (40, 120)):
             yield "amp_" + slot, levels * 1000 + chain, amplifier(slot, levels, chain)
 
+def chain_nest_families():
+    """a chain in front of a deeply nested operand: the chain grows the tree, the operand the recursion - separately"""
+    for k, m in ((100, 200), (10, 240), (250, 3), (128, 126), (200, 54), (254, 1), (255, 1), (1, 254), (1, 255), (3, 253)):
+        yield "chain_nest", k * 1000 + m, "a + " * k + "[" * m + "1" + "]" * m
+        yield "chain_nest_paren", k * 1000 + m, "(" + "a + " * k + "a) + " + "[" * m + "1" + "]" * m
+        yield "chain_nest_tern", k * 1000 + m, "a * " * k + "b ? " + "f(" * m + "1" + ")" * m + " : c"
+
 def deep_families(ns):
     fams = {
         "paren": lambda n: "(" * n + "1" + ")" * n,
@@ -113,6 +120,7 @@ class P:
         cases += flow.mk_cases("corrupt", ["PARSE:" + hx(s) for s in corr])
         deep = [("PARSE:" + hx(s), (name, n)) for name, n, s in deep_families(ns)]
         deep += [("PARSE:" + hx(s), (name, n)) for name, n, s in amplifier_families()]
+        deep += [("PARSE:" + hx(s), (name, n)) for name, n, s in chain_nest_families()]
         cases += flow.mk_cases("!deep", deep)
         return cases
 
